@@ -61,6 +61,15 @@ func VerifC07Teardown() {
 			<-gate
 		}
 	})
+	bgGo := make(chan struct{})
+	conn.HandleBG("FIRST", HandlerFunc(func(c *Conn, l *Line) {
+		// cause 3: a background handler decides to shut the connection down
+		<-bgGo
+		c.Close()
+		mu.Lock()
+		closed++
+		mu.Unlock()
+	}))
 	conn.HandleFunc("EV", func(*Conn, *Line) { mu.Lock(); evs++; mu.Unlock() })
 	conn.HandleFunc(DISCONNECTED, func(*Conn, *Line) { mu.Lock(); disc++; mu.Unlock() })
 	ctx, cancel := context.WithCancel(context.Background())
@@ -74,21 +83,18 @@ func VerifC07Teardown() {
 		}()
 	}
 	vRunPending() // the handler of FIRST is running (or blocked sending); the backlog piles up
-	cause := vLen("cause", 0, 2)
+	cause := vLen("cause", 0, 3)
+	if cause == 3 {
+		close(bgGo) // Close called from inside a background handler
+	}
 	switch cause {
 	case 0: // user Close from another goroutine
 		go func() { conn.Close(); mu.Lock(); closed++; mu.Unlock() }()
 	case 1: // the server goes away
 		w.Close()
 	case 2: // the connect context is cancelled
+		// (the peer stays stalled: nobody but the connection itself can notice the cancellation)
 		cancel()
-		if producer == 0 {
-			// the event loop is stuck behind the sending handler: the peer (which had only stalled) resumes
-			// reading. With a user goroutine producing, the idle event loop must notice the cancellation itself.
-			for i := 0; i < outb+4; i++ {
-				w.writeGate <- struct{}{}
-			}
-		}
 	}
 	vRunPending()
 	close(gate) // the long-running handler finishes
@@ -96,10 +102,13 @@ func VerifC07Teardown() {
 	mu.Lock()
 	vAssert(disc == 1, "DISCONNECTED-delivered-once")
 	vAssert(!conn.Connected(), "not-connected-afterwards")
-	if cause == 0 {
+	if cause == 0 || cause == 3 {
 		vAssert(closed == 1, "Close-returned")
 	}
 	mu.Unlock()
+	if cause != 3 {
+		close(bgGo) // let the background handler finish (its Close is a no-op by now)
+	}
 	// none of the connection's own goroutines is left (a user goroutine that keeps sending after the
 	// disconnect may well be stuck on the queue: sends issued after DISCONNECTED are outside the claim)
 	if vPendingGoNamed("send") >= 0 {
